@@ -474,4 +474,124 @@ theorem loop_spec (cfg : Cfg) (hbmi : cfg.bmi = false) (c : ZocClass) (hash dd :
       rw [hxe] at g
       exact ⟨res, by simp only [hx]; rfl, g⟩
 
+/-! ## every position is written -/
+
+theorem in_q0 (dd t : Nat) (h1 : 1 ≤ dd) (ht : t < 2 ^ dd - 1) :
+    t = 0 ∨ ∃ x b, 1 ≤ x ∧ x < 2 ^ (dd - 1) ∧ 2 ^ b ≤ x ∧ x < 2 ^ (b + 1) ∧ (t = x + 2 ^ b - 1 ∨ t = x + 2 ^ (b + 1) - 1) := by
+  have hs := pow_split h1
+  rcases q0_cases t with h | ⟨b, x, hb1, hb2, h⟩
+  · left; exact h
+  right
+  have hp := Nat.two_pow_pos b
+  have e1 : 2 ^ (b + 1) = 2 * 2 ^ b := by rw [Nat.pow_succ]; omega
+  refine ⟨x, b, by omega, ?_, hb1, hb2, h⟩
+  apply Classical.byContradiction
+  intro hge
+  have hlt : 2 ^ (dd - 1) < 2 ^ (b + 1) := by omega
+  have h2 := pow_succ_le_of_lt hlt
+  have e3 : 2 ^ (dd - 1 + 1) = 2 * 2 ^ (dd - 1) := by rw [Nat.pow_succ]; omega
+  omega
+
+theorem covered_all (dd t : Nat) (h1 : 1 ≤ dd) (ht : t < 4 * (2 ^ dd - 1)) : covered dd (2 ^ (dd - 1)) t := by
+  have hs := pow_split h1
+  have hH := Nat.two_pow_pos (dd - 1)
+  unfold covered
+  by_cases c1 : t < 2 ^ dd - 1
+  · rcases in_q0 dd t h1 c1 with h | ⟨x, b, hx1, hx2, hb1, hb2, h⟩
+    · left; exact h
+    · right; right; right; right
+      refine ⟨x, b, hx1, hx2, hb1, hb2, ?_⟩
+      rcases h with h | h
+      · left; exact h
+      · right; left; exact h
+  by_cases c2 : t < 2 ^ dd - 1 + 2 ^ (dd - 1)
+  · by_cases c2' : t = 2 ^ dd - 1 + 2 ^ (dd - 1) - 1
+    · right; left; exact c2'
+    · right; right; right; right
+      obtain ⟨b, hb1, hb2⟩ := exists_pow_bracket (2 ^ dd - 1 + 2 ^ (dd - 1) - 1 - t) (by omega)
+      refine ⟨_, b, by omega, by omega, hb1, hb2, ?_⟩
+      right; right; right; right; right; right; right; omega
+  by_cases c3 : t < 2 * (2 ^ dd - 1)
+  · right; right; right; right
+    obtain ⟨b, hb1, hb2⟩ := exists_pow_bracket (t - (2 ^ dd - 1 + 2 ^ (dd - 1)) + 1) (by omega)
+    refine ⟨_, b, by omega, by omega, hb1, hb2, ?_⟩
+    right; right; left; omega
+  by_cases c4 : t < 2 * (2 ^ dd - 1) + 2 ^ (dd - 1)
+  · by_cases c4' : t = 2 * (2 ^ dd - 1) + 2 ^ (dd - 1) - 1
+    · right; right; left; exact c4'
+    · right; right; right; right
+      obtain ⟨b, hb1, hb2⟩ := exists_pow_bracket (2 * (2 ^ dd - 1) + 2 ^ (dd - 1) - 1 - t) (by omega)
+      refine ⟨_, b, by omega, by omega, hb1, hb2, ?_⟩
+      right; right; right; right; right; right; left; omega
+  by_cases c5 : t < 3 * (2 ^ dd - 1)
+  · right; right; right; right
+    obtain ⟨b, hb1, hb2⟩ := exists_pow_bracket (t - (2 * (2 ^ dd - 1) + 2 ^ (dd - 1)) + 1) (by omega)
+    refine ⟨_, b, by omega, by omega, hb1, hb2, ?_⟩
+    right; right; right; left; omega
+  · rcases in_q0 dd (4 * (2 ^ dd - 1) - 1 - t) h1 (by omega) with h | ⟨x, b, hx1, hx2, hb1, hb2, h⟩
+    · right; right; right; left; omega
+    · right; right; right; right
+      have hp := Nat.two_pow_pos b
+      refine ⟨x, b, hx1, hx2, hb1, hb2, ?_⟩
+      rcases h with h | h
+      · right; right; right; right; left; omega
+      · right; right; right; right; right; left; omega
+
+/-! ## `internal_edge_sorted` as an explicit list -/
+
+theorem setOpt_fold (a : Array Nat) (k v : Nat) : (if k < a.size then some (a.set! k v) else none) = setOpt a k v := rfl
+
+theorem internalEdgeSorted_spec (cfg : Cfg) (hbmi : cfg.bmi = false) (hash dd : Nat) (h1 : 1 ≤ dd) (hd : dd ≤ 29)
+    (hh : hash < 2 ^ (64 - 2 * dd)) : internalEdgeSorted cfg hash dd = some (sortedList hash dd) := by
+  obtain ⟨c, hc, hdc⟩ := zoc_lut cfg hbmi dd hd
+  have hd32 : dd ≤ 32 := by omega
+  have hs := pow_split h1
+  have hH := Nat.two_pow_pos (dd - 1)
+  have hmN : 2 ^ dd - 1 < 2 ^ dd := by omega
+  have n2 : 2 ^ dd >>> 1 = 2 ^ (dd - 1) := by rw [Nat.shiftRight_eq_div_pow]; omega
+  have n3 : (2 ^ dd - 1) <<< 2 = 4 * (2 ^ dd - 1) := by rw [Nat.shiftLeft_eq]; omega
+  have n4 : (2 ^ dd - 1) <<< 1 = 2 * (2 ^ dd - 1) := by rw [Nat.shiftLeft_eq]; omega
+  unfold internalEdgeSorted
+  rw [hc, xMask_spec cfg dd h1 hd32]
+  simp only [Option.bind_eq_bind, Option.bind_some, interleave_shl, hash_shl hash dd hh hd32, Nat.one_shiftLeft, n2, n3,
+    n4, setOpt_fold]
+  have g0 : Good (4 * (2 ^ dd - 1)) (sortVal hash dd) (fun _ => False) (Array.replicate (4 * (2 ^ dd - 1)) 0) :=
+    ⟨Array.size_replicate, fun t ht => ht.elim⟩
+  obtain ⟨r1, w1, g1⟩ := write_good g0 0 (hash * 4 ^ dd) (by omega)
+    (by rw [sortVal, sc_south dd h1]; simp [cellVal, interleave])
+  obtain ⟨r2, w2, g2⟩ := write_good g1 (2 ^ dd - 1 + 2 ^ (dd - 1) - 1) (hash * 4 ^ dd ||| interleave (2 ^ dd - 1) 0)
+    (by omega) (by rw [sortVal, sc_east dd h1]; exact or_cell hash dd _ 0 hd32 hmN (by omega))
+  obtain ⟨r3, w3, g3⟩ := write_good g2 (2 * (2 ^ dd - 1) + 2 ^ (dd - 1) - 1)
+    (hash * 4 ^ dd ||| interleave 0 (2 ^ dd - 1)) (by omega)
+    (by rw [sortVal, sc_west dd h1]; exact or_cell hash dd 0 _ hd32 (by omega) hmN)
+  obtain ⟨r4, w4, g4⟩ := write_good g3 (4 * (2 ^ dd - 1) - 1)
+    (hash * 4 ^ dd ||| interleave 0 (2 ^ dd - 1) ||| interleave (2 ^ dd - 1) 0) (by omega)
+    (by rw [sortVal, sc_north dd h1]
+        exact or_or_cell hash dd 0 (2 ^ dd - 1) (2 ^ dd - 1) 0 _ _ hd32 hmN hmN (by simp) (by simp))
+  have g' : Good (4 * (2 ^ dd - 1)) (sortVal hash dd) (covered dd 1) r4 := by
+    refine g4.mono (fun t ht => ?_)
+    rcases ht with h | h | h | h | ⟨x, b, a1, a2, _⟩
+    · simp [h]
+    · simp [h]
+    · simp [h]
+    · simp [h]
+    · omega
+  rw [w1, Option.bind_some, if_neg (by omega), w2, Option.bind_some, w3, Option.bind_some, w4, Option.bind_some]
+  obtain ⟨out, hout, gout⟩ := loop_spec cfg hbmi c hash dd h1 hd hdc (2 ^ (dd - 1) + 1)
+    { x := 1, lim := 2, k0 := 1, k1 := 2, k2 := 2 ^ dd - 1 + 2 ^ (dd - 1), k3 := 2 * (2 ^ dd - 1) + 2 ^ (dd - 1),
+      res := r4 }
+    ⟨0, by simp, by simp, by simp, by dsimp only; omega, by simp, by simp, by dsimp only; omega, by dsimp only; omega, g'⟩
+    (by dsimp only; omega)
+  rw [show (fun (a : Array Nat) k v => setOpt a k v) = setOpt from rfl, hout, Option.bind_some]
+  simp only [pure, Option.some.injEq]
+  apply List.ext_getElem?
+  intro i
+  rw [Array.getElem?_toList, sortedList]
+  by_cases hi : i < 4 * (2 ^ dd - 1)
+  · rw [gout.2 i (covered_all dd i h1 hi)]
+    simp [hi, sortVal]
+  · have h1' : out[i]? = none := by rw [Array.getElem?_eq_none_iff, gout.1]; omega
+    rw [h1', eq_comm, List.getElem?_eq_none_iff]
+    simp only [List.length_map, List.length_range]; omega
+
 end Hpx.EdgeInternal
